@@ -22,7 +22,12 @@ def genSafe (name : String) : Option Bool := lookup name SandboxGuards.natives
     are supplied by the caller. -/
 def genCfg (native : String → Option Native) (hidden : String → String → Bool) : Cfg :=
   { guard := genGuard, callCheck := SandboxGuards.callCheck, fieldCheck := SandboxGuards.fieldCheck,
+    refGetSandboxed := SandboxGuards.refGetSandboxed, initDictOff := SandboxGuards.initDictOff,
     native := native, hidden := hidden }
+
+/-- The side-effect-free flag of every native the caller supplies is the one registered in the source. -/
+def NativeFlagsFromTable (native : String → Option Native) : Prop :=
+  ∀ n f, native n = some f → genSafe n = some f.safe
 
 /-- The node kinds the property record lists as carrying a sandbox check
     (properties.jsonl C19 mechanism; expression.cpp:606-610,700-704,855-990). -/
